@@ -74,7 +74,7 @@ func CommonExpl(id string) string {
 		if len(sc) == 1 && sc[0] == "" {
 			where = "the whole module"
 		}
-		out += " Cross-cutting rules (.x) within " + where + ": no nested short declaration hides a result that is read after the block; no errors.Wrap of an error that is nil on every path; results that can be nil without an error are tested before use, and no result is used on the path where its call failed; no in-place removal at a loop index followed by the next index; no slot count re-typed as an epoch count (or back) without slotsPerEpoch, no integer ratio converted to floating point afterwards; no slice parameter sorted in place; wait groups balance, no fan-out under an errgroup context, coalesced requests keyed by the request; a guard before a submit/sign/send of a collection asks for non-empty, not for more than some number of elements; a closure that runs later from inside a loop does not share a variable declared outside the loop and assigned inside it; an integer quotient of two run-time quantities is not used as a modulus without a clamp."
+		out += " Cross-cutting rules (.x) within " + where + ": no nested short declaration hides a result that is read after the block; no errors.Wrap of an error that is nil on every path; results that can be nil without an error are tested before use, and no result is used on the path where its call failed; no in-place removal at a loop index followed by the next index; no slot count re-typed as an epoch count (or back) without slotsPerEpoch, no integer ratio converted to floating point afterwards; no slice parameter sorted in place; wait groups balance, no fan-out under an errgroup context, coalesced requests keyed by the request; a guard before a submit/sign/send of a collection asks for non-empty, not for more than some number of elements; a closure that runs later from inside a loop does not share a variable declared outside the loop and assigned inside it; an integer quotient of two run-time quantities is not used as a modulus without a clamp; in strategies no send, receive or select on a channel kept in a service field; wiring: no two functional options of a package store into the same parameters field, and a Service field with the name and type of a parameters field is that setting or a constant default, never a value computed from other settings."
 	}
 	if im := imports[id]; len(im) > 0 {
 		out += " Taken over (.y) from sibling properties that rely on the same code: " + strings.Join(im, ", ") + "."
@@ -791,8 +791,8 @@ func checkWiring(id string, p *core.Prog, r *core.Report, fns []*ssa.Function) {
 				flds = append(flds, k)
 			}
 			sort.Strings(flds)
-			for _, fld := range flds {
-				v := sl.Fields[fld]
+			dsW := core.NewDescriber()
+			strip := func(v ssa.Value) ssa.Value {
 				for {
 					switch x := v.(type) {
 					case *ssa.ChangeInterface:
@@ -804,41 +804,92 @@ func checkWiring(id string, p *core.Prog, r *core.Report, fns []*ssa.Function) {
 					case *ssa.MakeInterface:
 						v = x.X
 						continue
+					case *ssa.Convert:
+						v = x.X
+						continue
 					}
-					break
+					return v
 				}
-				// does the parameters struct have a field of this name?  found through any load of it in New
-				var paramLoad ssa.Value
-				hasField := false
-				sameType := false
-				core.EachInstr(f, func(in ssa.Instruction) {
-					ld, ok := in.(*ssa.UnOp)
-					if !ok || ld.Op != token.MUL {
-						return
+			}
+			// the load of parameters.<name>, if v is one
+			paramField := func(v ssa.Value) (string, bool) {
+				ld, ok := v.(*ssa.UnOp)
+				if !ok || ld.Op != token.MUL {
+					return "", false
+				}
+				fid, base, ok := core.FieldOfAddr(ld.X)
+				if !ok {
+					return "", false
+				}
+				if bt, ok := base.Type().(*types.Pointer); ok {
+					if bn, ok := bt.Elem().(*types.Named); ok && bn.Obj().Name() == "parameters" {
+						return fid.Name, true
 					}
-					fid, base, ok := core.FieldOfAddr(ld.X)
-					if !ok || fid.Name != fld {
-						return
+				}
+				return "", false
+			}
+			// the fields of the parameters struct, with their types
+			ptypes := map[string]types.Type{}
+			core.EachInstr(f, func(in ssa.Instruction) {
+				if ld, ok := in.(*ssa.UnOp); ok {
+					if n, ok := paramField(ld); ok {
+						ptypes[n] = ld.Type()
 					}
-					if bt, ok := base.Type().(*types.Pointer); ok {
-						if bn, ok := bt.Elem().(*types.Named); ok && bn.Obj().Name() == "parameters" {
-							hasField = true
-							if types.Identical(ld.Type(), v.Type()) {
-								sameType = true
-							}
-							if ssa.Value(ld) == v {
-								paramLoad = ld
+				}
+			})
+			for _, fld := range flds {
+				pt, hasField := ptypes[fld]
+				if !hasField {
+					continue
+				}
+				v := sl.Fields[fld]
+				plain, altered := false, ""
+				for _, lf := range core.PhiLeaves(v, sl.Stores[fld]) {
+					lv := strip(lf.V)
+					if n, ok := paramField(lv); ok && n == fld {
+						plain = true
+						continue
+					}
+					if _, isConst := lv.(*ssa.Const); isConst {
+						continue // a default
+					}
+					// computed from a setting?  (operands, a few levels deep)
+					usesSetting := false
+					seenV := map[ssa.Value]bool{}
+					var walk func(x ssa.Value, depth int)
+					walk = func(x ssa.Value, depth int) {
+						if x == nil || seenV[x] || depth > 6 || usesSetting {
+							return
+						}
+						seenV[x] = true
+						if _, ok := paramField(x); ok {
+							usesSetting = true
+							return
+						}
+						if in, ok := x.(ssa.Instruction); ok {
+							for _, op := range in.Operands(nil) {
+								if op != nil && *op != nil {
+									walk(*op, depth+1)
+								}
 							}
 						}
 					}
-				})
-				if !hasField || (!sameType && paramLoad == nil) {
-					// no such setting, or an object of another type built from it (parsed endpoints, compiled expressions)
+					walk(lv, 0)
+					if usesSetting {
+						altered = dsW.D(lv).String()
+					}
+				}
+				if !plain && !types.Identical(pt, strip(v).Type()) {
+					// an object of another type built from the setting (parsed endpoints, compiled expressions)
 					continue
 				}
 				nCopy++
-				if paramLoad == nil {
-					r.Violate(id+".x", core.FnKey(f)+"|constructor-takes-parameter-as-is|"+fld, p.Pos(sl.Stores[fld].Pos()), "the service field "+fld+" is not the parameters field of the same name as it was configured, but a value computed from it ("+core.NewDescriber().D(v).String()+"): the configured setting is altered on the way into the service")
+				if altered != "" || !plain {
+					what := altered
+					if what == "" {
+						what = dsW.D(v).String()
+					}
+					r.Violate(id+".x", core.FnKey(f)+"|constructor-takes-parameter-as-is|"+fld, p.Pos(sl.Stores[fld].Pos()), "the service field "+fld+" is not the parameters field of the same name as it was configured (or a default), but is computed from other settings ("+what+"): the configured setting is altered on the way into the service")
 				}
 			}
 		}
